@@ -20,7 +20,7 @@ static const int NBINOPS = sizeof(BINOPS) / sizeof(BINOPS[0]);
 static const char* const TEMPLATES[] = {"%a%o%a"};
 #elif FAMILY == 2    // unary constructs, enumerations, tuples, calls, logic
 static const char* const TEMPLATES[] = {"\xE2\x84\xAC(%a)", "card(%a)", "debool(%a)", "red(%a)", "bool(%a)", "pr1(%a)", "pr2(%a)", "pr3(%a)", "Pr1(%a)", "Pr1,2(%a)", "Pr2,1(%a)",
-  "{%a,%a}", "(%a,%a)", "\xC2\xAC%a", "%a & %a", "%a=%a \xE2\x87\x92 %a", "F1[%a, %a]", "F1[%a]", "P1[%a]", "P1[%a] & %a=%a", "Fi1[%a](%a)", "Fi2[%a](%a)", "Fi1,2[%a,%a](S1)", "Fi1,2[%a](S1)",
+  "{%a,%a}", "(%a,%a)", "\xC2\xAC%a", "%a & %a", "%a=%a \xE2\x87\x92 %a", "F1[%a, %a]", "F1[%a]", "F2[%a]", "F2[%a]\xE2\x88\xAA%a", "F2[%a]=%a", "P1[%a]", "F3[%a]", "card(F3[%a])=card(%a)", "P2[%a]", "P2[%a] & %a=%a", "P1[%a] & %a=%a", "Fi1[%a](%a)", "Fi2[%a](%a)", "Fi1,2[%a,%a](S1)", "Fi1,2[%a](S1)",
   "%a:==", "D9:==%a", "S9::=%a", "S9::=\xE2\x84\xAC(%a\xC3\x97%a)",
   // lazily represented operands (power set, product) on either side of a set operation
   "\xE2\x84\xAC(%a)\xE2\x88\xAA{%a}", "{%a}\xE2\x88\xAA\xE2\x84\xAC(%a)", "(%a\xC3\x97%a)\xE2\x88\xAAS1", "S1\xE2\x88\xAA(%a\xC3\x97%a)", "\xE2\x84\xAC(%a)\\{%a}", "(%a\xC3\x97%a)\xE2\x88\xA9S1", "\xE2\x84\xAC(%a)\xE2\x8A\x86S2", "(%a\xC3\x97%a)\xE2\x8A\x86S1"};
@@ -40,7 +40,9 @@ static const char* const TEMPLATES[] = {"\xE2\x88\x80\xCE\xBE\xE2\x88\x88%a \xCE
   "D{c\xE2\x88\x88%a | \xE2\x88\x83" "a\xE2\x88\x88X1 a=c} \xE2\x88\xAA D{a\xE2\x88\x88%a | \xE2\x88\x83" "b\xE2\x88\x88X1 b=a & a=a}",
   // tuple patterns that re-use a name at another position / nesting in a sibling binder
   "I{a | (a,b):\xE2\x88\x88%a}\xE2\x88\xAAI{a | (b,a):\xE2\x88\x88%a}", "\xE2\x88\x80(a,b)\xE2\x88\x88%a a=a & \xE2\x88\x83(b,a)\xE2\x88\x88%a a\xE2\x88\x88X2",
-  "D{(a,b)\xE2\x88\x88%a | b=b}\xE2\x88\xAA" "D{(c,a)\xE2\x88\x88%a | a\xE2\x88\x88X2}", "I{b | (a,(b,c)):\xE2\x88\x88%a}\xE2\x88\xAAI{b | ((b,c),a):\xE2\x88\x88%a}"};
+  "D{(a,b)\xE2\x88\x88%a | b=b}\xE2\x88\xAA" "D{(c,a)\xE2\x88\x88%a | a\xE2\x88\x88X2}", "I{b | (a,(b,c)):\xE2\x88\x88%a}\xE2\x88\xAAI{b | ((b,c),a):\xE2\x88\x88%a}",
+  // an iteration domain that depends on a variable bound by an earlier block
+  "I{(a,b) | a:\xE2\x88\x88%a; b:\xE2\x88\x88" "a}", "I{(a,b) | a:\xE2\x88\x88%a; b:\xE2\x88\x88%a\\{a}}", "I{(a,c) | (a,b):\xE2\x88\x88%a; c:\xE2\x88\x88" "b}"};
 #else                // three atoms, two operators
 static const char* const TEMPLATES[] = {"%a%o%a%o%a"};
 #endif
